@@ -44,6 +44,10 @@ class Kinematics:
         mw = M.mutable(w0)
         teleported = False
         pose_model = None
+        sb = common.seam_break(ev) if cl.proxied else None
+        if sb is not None:
+            sim.violate('kinematics', 'state_changed_outside_components', sb[0], common.world_diff(sb[1], sb[2]), f'{a}: the state differs {sb[0]} ({common.world_diff(sb[1], sb[2])})')
+            return
         # --- per component, when the chain is proxied
         if cl.proxied and len(ev['complog']) == len(chain):
             for (name, before, after, _) in ev['complog']:
